@@ -17,6 +17,7 @@
 package content
 
 import (
+	"fmt"
 	"io"
 	"slices"
 
@@ -76,6 +77,14 @@ func (op Operator) Format(out io.Writer) error {
 					return err
 				}
 			}
+			// Without a length, a reader finds the end of the data by looking
+			// for <EOL>EI<delimiter>.  If the data itself contains this
+			// pattern, the length must be given explicitly (PDF 2.0, /L).
+			if _, ok := dict["L"]; !ok && dict["Length"] == nil && inlineDataNeedsLength(data) {
+				if _, err := fmt.Fprintf(out, "/L %d\n", len(data)); err != nil {
+					return err
+				}
+			}
 			if _, err := out.Write([]byte("ID\n")); err != nil {
 				return err
 			}
@@ -108,4 +117,19 @@ func (op Operator) Format(out io.Writer) error {
 	}
 
 	return nil
+}
+
+// inlineDataNeedsLength reports whether inline image data contains an
+// end-of-line marker followed by "EI" and a white-space or delimiter
+// character (or the end of the data), which a reader would mistake for the
+// end of the image.
+func inlineDataNeedsLength(data []byte) bool {
+	for i := 0; i+2 < len(data); i++ {
+		if (data[i] == '\n' || data[i] == '\r') && data[i+1] == 'E' && data[i+2] == 'I' {
+			if i+3 >= len(data) || class[data[i+3]] != regular {
+				return true
+			}
+		}
+	}
+	return false
 }
